@@ -18,7 +18,7 @@ from vlib.symx import AND, OR, NOT, IMPLIES, IFF, EQ, SUM, B2I, is_sym
 
 from krrood.entity_query_language.entity import entity, let, and_, or_, not_, set_of, in_, contains, exists, for_all, flatten
 from krrood.entity_query_language.quantify_entity import an, the
-from krrood.entity_query_language.predicate import Predicate, HasType
+from krrood.entity_query_language.predicate import Predicate, HasType, symbolic_function
 from krrood.entity_query_language import symbolic as S
 
 from .eqlworld import P, P2, Q, VP, VQ, index_of
@@ -51,6 +51,12 @@ class GtPred2(Predicate):
         return self.left.a > self.right.a
 
 
+@symbolic_function
+def minus_fn(obj):
+    """harness symbolic function whose result is a plain value (0 is a value like any other): obj.a - obj.b"""
+    return obj.a - obj.b
+
+
 # ---------------------------------------------------------------------------------------------
 # shape utilities
 # ---------------------------------------------------------------------------------------------
@@ -59,7 +65,7 @@ def shape_vars(c, bound=()):
     out = []
 
     def term(t):
-        if t[0] in ("a", "b", "kidv", "val0", "m", "flatv", "s", "sa", "t") and t[1] not in out and t[1] not in bound_stack:
+        if t[0] in ("a", "b", "kidv", "val0", "m", "flatv", "s", "sa", "t", "fnv") and t[1] not in out and t[1] not in bound_stack:
             out.append(t[1])
 
     bound_stack = list(bound)
@@ -128,6 +134,8 @@ def features(c):
     def term(t):
         if t[0] in ("b", "kidv", "val0", "m", "s", "t"):
             f.add(t[0])
+        if t[0] == "fnv":
+            f.add("b")
         if t[0] == "flatv":
             f.add("kids")
             f.add("flatv")
@@ -215,7 +223,7 @@ def show_t(t):
         return "S%d" % t[1]
     if t[0] == "tlit":
         return "T%d" % t[1]
-    return {"t": "%s.t", "sa": "A(%s)", "s": "%s.s", "a": "%s.a", "b": "%s.b", "kidv": "%s.kid.v", "val0": "%s.vals[0]", "m": "%s.m()", "flatv": "flatten(%s.kids).v"}[t[0]] % t[1] if t[0] != "lit" else "k%d" % t[1]
+    return {"fnv": "minus(%s)", "t": "%s.t", "sa": "A(%s)", "s": "%s.s", "a": "%s.a", "b": "%s.b", "kidv": "%s.kid.v", "val0": "%s.vals[0]", "m": "%s.m()", "flatv": "flatten(%s.kids).v"}[t[0]] % t[1] if t[0] != "lit" else "k%d" % t[1]
 
 
 # ---------------------------------------------------------------------------------------------
@@ -313,6 +321,8 @@ class World:
         v = self.var(t[1])
         if k == "t":
             return v.t
+        if k == "fnv":
+            return minus_fn(v)
         if k == "s":
             return v.s
         if k == "sa":  # ONE attribute expression node shared by all its uses (a = x.a; and_(a >= k, a))
@@ -381,6 +391,8 @@ class World:
         o = env[t[1]]
         if k == "t":
             return o.t
+        if k == "fnv":
+            return o.a - o.b
         if k == "s":
             return o.s
         if k == "sa":
@@ -497,6 +509,8 @@ def atoms(vars_, level):
         out += [("cmp", "<", ("s", x), ("slit", 1)), ("cmp", ">=", ("s", x), ("slit", 2))]
         if y:
             out += [("cmp", "<=", ("s", x), ("s", y))]
+        # the result of a symbolic function as an operand (a falsy result is a value like any other)
+        out += [("cmp", "==", ("fnv", x), ("lit", 0)), ("cmp", "!=", ("fnv", x), ("lit", 0))]
         # order comparisons between sequence values are lexicographic
         out += [("cmp", ">=", ("t", x), ("tlit", 1))]
         if y:
